@@ -312,6 +312,12 @@ pub enum Op {
     SetTxStatus { txid: [u8; 32], mined: Option<u32> },
     QueueRescans { a: u32, b: u32, prio: u8 },
     TruncateToChainState { h: u32 },
+    RewindToChainState { h: u32, reset: bool },
+    LockOutputs { refs: Vec<(u8, [u8; 32], u32)>, owner: u8, expiry: u32 },
+    UnlockOutput { r: (u8, [u8; 32], u32), owner: u8 },
+    ClearLocks { i: usize },
+    StoreMigration { i: usize, salt: u64, lo: u32, hi: u32, nfs: Vec<[u8; 32]> },
+    CancelMigration { i: usize },
 }
 
 impl Op {
@@ -329,6 +335,12 @@ impl Op {
             Op::SetTxStatus { .. } => "set_transaction_status",
             Op::QueueRescans { .. } => "queue_rescans",
             Op::TruncateToChainState { .. } => "truncate_to_chain_state",
+            Op::RewindToChainState { .. } => "rewind_to_chain_state",
+            Op::LockOutputs { .. } => "lock_outputs",
+            Op::UnlockOutput { .. } => "unlock_output",
+            Op::ClearLocks { .. } => "clear_locked_outputs",
+            Op::StoreMigration { .. } => "pool_migration.replace_migration",
+            Op::CancelMigration { .. } => "pool_migration.cancel_migration",
         }
     }
 }
@@ -356,6 +368,15 @@ impl Env {
 
 /// Apply one operation through a fresh `WalletDb` wrapper on `conn`.
 pub fn apply_op(conn: &mut Connection, rng: &mut ChaChaRng, env: &Env, op: &Op) -> Result<String, String> {
+    // the pool-migration store works on the connection directly
+    match op {
+        Op::StoreMigration { i, salt, lo, hi, nfs } => {
+            let st = crate::migration::sample_migration_state(*salt, *lo, *hi, nfs).ok_or("state")?;
+            return crate::migration::store_migration(env.net, conn, env.accounts[*i], &st);
+        }
+        Op::CancelMigration { i } => return crate::migration::cancel_migration(env.net, conn, env.accounts[*i]),
+        _ => {}
+    }
     let mut d = WalletDb::from_connection(conn, env.net, env.clock.clone(), rng);
     if let Some(r) = env.cfg.retention {
         d.set_anchor_retention_interval(zcash_client_backend::data_api::anchor_retention::AnchorRetentionInterval::custom(std::num::NonZeroU32::new(r).unwrap()));
@@ -427,7 +448,73 @@ pub fn apply_op(conn: &mut Connection, rng: &mut ChaChaRng, env: &Env, op: &Op) 
             };
             d.queue_rescans(nonempty::NonEmpty::singleton(BlockHeight::from_u32(*a)..BlockHeight::from_u32(*b)), p).map(|_| "ok".to_string()).map_err(|x| e(&x))
         }
+        Op::RewindToChainState { h, reset } => {
+            let st = env.chain().chain_state_at(*h).ok_or("no chain state")?;
+            let set: std::collections::HashSet<AccountUuid> = if *reset { env.accounts.iter().copied().collect() } else { Default::default() };
+            d.rewind_to_chain_state(st, set).map(|_| "rewound".to_string()).map_err(|x| format!("{x:?}"))
+        }
+        Op::LockOutputs { refs, owner, expiry } => {
+            use zcash_client_backend::data_api::locking::{LockOwner, OutputLockStore};
+            use zcash_client_backend::wallet::OutputRef;
+            let refs: Vec<OutputRef> = refs.iter().map(|(p, t, i)| OutputRef::new(zcash_protocol::TxId::from_bytes(*t), pool_type(*p), *i)).collect();
+            d.lock_outputs(&refs, LockOwner::new([*owner; 32]), BlockHeight::from_u32(*expiry)).map(|n| format!("locked {n}")).map_err(|x| format!("{x:?}"))
+        }
+        Op::UnlockOutput { r, owner } => {
+            use zcash_client_backend::data_api::locking::{LockOwner, OutputLockStore};
+            use zcash_client_backend::wallet::OutputRef;
+            d.unlock_output(&OutputRef::new(zcash_protocol::TxId::from_bytes(r.1), pool_type(r.0), r.2), LockOwner::new([*owner; 32])).map(|b| format!("unlocked {b}")).map_err(|x| e(&x))
+        }
+        Op::ClearLocks { i } => {
+            use zcash_client_backend::data_api::locking::OutputLockStore;
+            d.clear_locked_outputs(env.accounts[*i]).map(|n| format!("cleared {n}")).map_err(|x| e(&x))
+        }
+        Op::StoreMigration { .. } | Op::CancelMigration { .. } => unreachable!(),
     }
+}
+
+fn pool_type(p: u8) -> zcash_protocol::PoolType {
+    use zcash_protocol::{PoolType, ShieldedPool};
+    match p {
+        0 => PoolType::Shielded(ShieldedPool::Sapling),
+        1 => PoolType::Shielded(ShieldedPool::Orchard),
+        2 => PoolType::Shielded(ShieldedPool::Ironwood),
+        _ => PoolType::Transparent,
+    }
+}
+
+/// Outputs the wallet holds for an account, per pool table: (pool code, txid, index).
+fn wallet_outputs(conn: &Connection, acct: AccountUuid) -> Vec<(u8, [u8; 32], u32)> {
+    let mut out = vec![];
+    for (code, table, col) in [(0u8, "sapling_received_notes", "output_index"), (1, "orchard_received_notes", "action_index"), (2, "ironwood_received_notes", "action_index"), (3, "transparent_received_outputs", "output_index")] {
+        let sql = format!("SELECT t.txid, n.{col} FROM {table} n JOIN transactions t ON t.id_tx = n.transaction_id JOIN accounts a ON a.id = n.account_id WHERE a.uuid = ?1 ORDER BY t.txid, n.{col} LIMIT 6");
+        if let Ok(mut st) = conn.prepare(&sql) {
+            let rows: Vec<(Vec<u8>, u32)> = st.query_map([acct.expose_uuid()], |r| Ok((r.get(0)?, r.get(1)?))).map(|it| it.filter_map(|x| x.ok()).collect()).unwrap_or_default();
+            for (t, i) in rows {
+                if t.len() == 32 {
+                    let mut x = [0u8; 32];
+                    x.copy_from_slice(&t);
+                    out.push((code, x, i));
+                }
+            }
+        }
+    }
+    out
+}
+
+fn orchard_nullifiers(conn: &Connection, acct: AccountUuid) -> Vec<[u8; 32]> {
+    let sql = "SELECT n.nf FROM orchard_received_notes n JOIN accounts a ON a.id = n.account_id WHERE a.uuid = ?1 AND n.nf IS NOT NULL ORDER BY n.nf LIMIT 8";
+    let mut out = vec![];
+    if let Ok(mut st) = conn.prepare(sql) {
+        let rows: Vec<Vec<u8>> = st.query_map([acct.expose_uuid()], |r| r.get(0)).map(|it| it.filter_map(|x| x.ok()).collect()).unwrap_or_default();
+        for t in rows {
+            if t.len() == 32 {
+                let mut x = [0u8; 32];
+                x.copy_from_slice(&t);
+                out.push(x);
+            }
+        }
+    }
+    out
 }
 
 // ---------------------------------------------------------------- the sweep
@@ -877,6 +964,104 @@ pub fn sweep(s: &mut WalletSim, op: &Op, ch: &mut Choices, ctx: &mut RunCtx, pos
             }
         }
     }
+    // ---- 5b. the same with the library's own multi-statement reads on the other connection: each call's answer is
+    // the answer on the pre-state or on the post-state, never a blend of the two
+    if steps > 0 && changed {
+        ctx.oracle("library_read_consistent_under_concurrent_commit");
+        let accounts_b = s.accounts.clone();
+        let (net_b, clock_b) = (s.net, s.clock.clone());
+        let expect = |path: &std::path::Path| -> Vec<(String, String)> {
+            let c = open_conn(path, false);
+            lib_read(&c, net_b, &clock_b, &accounts_b)
+        };
+        let pre_copy = scratch.join("pre").join("wallet.db");
+        let want_pre = expect(&pre_copy);
+        let want_post = expect(&ref_path);
+        if want_pre != want_post {
+            ctx.probe("library_read_distinguishes_pre_and_post");
+            let total_steps = {
+                // how long the reader runs on its own
+                let cnt = Arc::new(AtomicU64::new(0));
+                let c3 = cnt.clone();
+                conn2.progress_handler(1, Some(move || {
+                    c3.fetch_add(1, Ordering::Relaxed);
+                    false
+                }));
+                let _ = lib_read(&conn2, net_b, &clock_b, &accounts_b);
+                conn2.progress_handler(1, None::<fn() -> bool>);
+                cnt.load(Ordering::Relaxed).max(1)
+            };
+            let at = 1 + ch.below("k.readerLib", total_steps);
+            let env_b = Env::of(s);
+            let conn_ptr = SendPtr(&mut s.conn as *mut Connection);
+            let c2_ptr = SendPtr(&conn2 as *const Connection as *mut Connection);
+            let mut rng = rng0.clone();
+            let op2 = op.clone();
+            let accounts_c = accounts_b.clone();
+            let clock_c = clock_b.clone();
+            let (reader_view, writer_res) = on_fresh_thread(thread_seed, knobs, move || {
+                let c2 = unsafe { &*c2_ptr.get() };
+                let cnt = Rc::new(Cell::new(0u64));
+                let wres: Rc<RefCell<Option<Result<Result<String, String>, String>>>> = Rc::new(RefCell::new(None));
+                let (cnt2, wres2) = (cnt.clone(), wres.clone());
+                let envp = SendPtr(&env_b as *const Env as *mut Env);
+                let rngp = SendPtr(&mut rng as *mut ChaChaRng);
+                let opp = op2.clone();
+                let h = move || -> bool {
+                    let k = cnt2.get() + 1;
+                    cnt2.set(k);
+                    if k == at {
+                        let conn = unsafe { &mut *conn_ptr.get() };
+                        let env = unsafe { &*envp.get() };
+                        let rng = unsafe { &mut *rngp.get() };
+                        FIRE_AT.with(|a| a.set(0));
+                        *wres2.borrow_mut() = Some(catch(|| apply_op(conn, rng, env, &opp)));
+                    }
+                    false
+                };
+                struct H<F>(F);
+                unsafe impl<F> Send for H<F> {}
+                let hh = H(h);
+                c2.progress_handler(1, Some(move || {
+                    let f = &hh;
+                    (f.0)()
+                }));
+                let view = catch(|| lib_read(c2, net_b, &clock_c, &accounts_c));
+                c2.progress_handler(1, None::<fn() -> bool>);
+                let w = wres.borrow_mut().take();
+                (view, w)
+            });
+            ctx.fault("writer_commit_inside_library_read");
+            let view = reader_view.map_err(|m| Violation::keyed("no_panic", format!("panic:{}", crate::runner::panic_site(&m)), format!("a library read panicked while {kind} ran on the other connection: {m}")))?;
+            if let Some(wr) = writer_res {
+                let wr = wr.map_err(|m| Violation::keyed("no_panic", format!("panic:{}", crate::runner::panic_site(&m)), format!("{kind} panicked while a library read was in progress: {m}")))?;
+                let now = dump(&s.conn).map_err(|e| v("dump_readable", e.to_string()))?;
+                match (&wr, now == pre, now == post) {
+                    (Err(_), true, _) => ctx.probe("busy_seen"),
+                    (Ok(_), _, true) => {
+                        drop(std::mem::replace(&mut conn2, Connection::open_in_memory().unwrap()));
+                        restore(s, &scratch, &pre)?;
+                        conn2 = open_conn(&s.path, s.cfg.wal);
+                    }
+                    _ => return Err(v("writer_under_reader_is_pre_or_post", format!("writer returned {:?} while a library read was in progress on another connection; database is neither consistent outcome ({})", wr.as_ref().map(|_| "Ok").map_err(|e| e.clone()), dump_diff(&pre, &now)))),
+                }
+                let find = |m: &Vec<(String, String)>, k: &str| m.iter().find(|(kk, _)| kk == k).map(|(_, v)| v.clone());
+                for (k, val) in &view {
+                    if val.contains("database is locked") || val.contains("busy") {
+                        ctx.probe("busy_seen");
+                        continue;
+                    }
+                    // only calls that are defined on both states (same account, same migration transaction) have an
+                    // expected answer on each side
+                    let (Some(a), Some(b)) = (find(&want_pre, k), find(&want_post, k)) else { continue };
+                    let (a, b) = (Some(a), Some(b));
+                    if a.as_ref() != Some(val) && b.as_ref() != Some(val) {
+                        return Err(v("library_read_consistent_under_concurrent_commit", format!("while {kind} committed on the other connection (at reader VM step {at} of {total_steps}), the library call {k} answered {val:?}; on the pre-state it answers {a:?}, on the post-state {b:?}")));
+                    }
+                }
+            }
+        }
+    }
     drop(conn2);
 
     // ---- 6. retry: the un-faulted operation must now give the reference post-state
@@ -931,6 +1116,22 @@ fn restore(s: &mut WalletSim, scratch: &Path, pre: &Dump) -> Result<(), Violatio
     Ok(())
 }
 
+/// Library-level reads, one entry per call (each must be consistent in itself whatever a writer does meanwhile).
+fn lib_read(c: &Connection, net: LocalNetwork, clock: &SimClock, accounts: &[AccountUuid]) -> Vec<(String, String)> {
+    let mut out = vec![];
+    {
+        let db = WalletDb::from_connection(c, net, clock.clone(), ());
+        out.push(("get_wallet_summary".to_string(), match db.get_wallet_summary(ConfirmationsPolicy::MIN) {
+            Ok(s) => summary_string(&s, accounts),
+            Err(e) => format!("ERR {e}"),
+        }));
+    }
+    for (i, a) in accounts.iter().enumerate() {
+        out.extend(crate::migration::render_migration_reads(net, c, *a, &format!("acct{i}")));
+    }
+    out
+}
+
 fn summary_string(s: &Option<zcash_client_backend::data_api::WalletSummary<AccountUuid>>, accounts: &[AccountUuid]) -> String {
     match s {
         None => "none".into(),
@@ -953,7 +1154,7 @@ pub struct Atomic;
 fn pick_op(s: &mut WalletSim, ch: &mut Choices) -> Option<Op> {
     let tip = s.chain.tip();
     let base = s.cfg.base_height;
-    let k = ch.weighted("c02.op", &[30, 12, 8, 5, 4, 5, 6, 6, 8, 6, 6, 4]);
+    let k = ch.weighted("c02.op", &[30, 12, 8, 5, 4, 5, 6, 6, 8, 6, 6, 4, 6, 8, 4, 6, 8, 3]);
     Some(match k {
         0 => {
             // a scan: suggested range, or arbitrary, possibly illegal (non-contiguous state is the wallet's problem)
@@ -986,11 +1187,48 @@ fn pick_op(s: &mut WalletSim, ch: &mut Choices) -> Option<Op> {
             let a = base + 1 + ch.below("a", (tip - base).max(1) as u64) as u32;
             Op::QueueRescans { a, b: (a + 1 + ch.below("len", 20) as u32).min(tip + 1).max(a + 1), prio: ch.below("prio", 4) as u8 }
         }
-        _ => {
+        11 => {
             let maxs = s.scanned.iter().next_back().copied().unwrap_or(base);
             let lo = maxs.saturating_sub(20).max(base);
             Op::TruncateToChainState { h: lo + ch.below("h", (maxs - lo + 1) as u64) as u32 }
         }
+        12 => {
+            let maxs = s.scanned.iter().next_back().copied().unwrap_or(base);
+            let lo = maxs.saturating_sub(30).max(base);
+            Op::RewindToChainState { h: (lo + ch.below("h", (maxs - lo + 2) as u64) as u32).min(tip), reset: ch.chance("reset", 1, 3) }
+        }
+        13 => {
+            // lock a few outputs of one account, across pool tables where it has any
+            let a = s.accounts[ch.idx("acct", s.accounts.len())];
+            let all = wallet_outputs(&s.conn, a);
+            if all.is_empty() {
+                return None;
+            }
+            let n = 1 + ch.idx("n", 4.min(all.len()));
+            let mut refs = vec![];
+            for j in 0..n {
+                // spread over the pool tables: take every (len / n)-th
+                refs.push(all[(j * all.len() / n + ch.idx("off", all.len())) % all.len()]);
+            }
+            refs.sort();
+            refs.dedup();
+            Op::LockOutputs { refs, owner: 1 + ch.below("owner", 3) as u8, expiry: tip + 1 + ch.below("for", 30) as u32 }
+        }
+        14 => {
+            let a = s.accounts[ch.idx("acct", s.accounts.len())];
+            let all = wallet_outputs(&s.conn, a);
+            if all.is_empty() {
+                return None;
+            }
+            Op::UnlockOutput { r: all[ch.idx("which", all.len())], owner: 1 + ch.below("owner", 3) as u8 }
+        }
+        15 => Op::ClearLocks { i: ch.idx("acct", s.accounts.len()) },
+        16 => {
+            let i = ch.idx("acct", s.accounts.len());
+            let maxs = s.scanned.iter().next_back().copied().unwrap_or(base + 1);
+            Op::StoreMigration { i, salt: ch.u64("salt"), lo: maxs.saturating_sub(25).max(base + 1), hi: maxs.max(base + 1), nfs: orchard_nullifiers(&s.conn, s.accounts[i]) }
+        }
+        _ => Op::CancelMigration { i: ch.idx("acct", s.accounts.len()) },
     })
 }
 
@@ -1042,6 +1280,40 @@ impl Scenario for Atomic {
             for _ in 0..3 {
                 if s.sync_step(10, false, ctx).is_err() {
                     return Ok(());
+                }
+            }
+        }
+        // ---- without faults: reservations across pool tables and a stored pool migration, so that the swept
+        // operations (rewinds, scans, lock clearing, cancel) have multi-table work to do
+        if s.dirty_fork.is_none() {
+            let env = Env::of(&s);
+            if ch.chance("pre.locks", 1, 2) {
+                for a in s.accounts.clone() {
+                    let all = wallet_outputs(&s.conn, a);
+                    if all.is_empty() {
+                        continue;
+                    }
+                    let mut refs: Vec<(u8, [u8; 32], u32)> = vec![];
+                    for code in 0..4u8 {
+                        if let Some(r) = all.iter().find(|r| r.0 == code) {
+                            refs.push(*r);
+                        }
+                    }
+                    let tip = s.chain.tip();
+                    let op = Op::LockOutputs { refs, owner: 1 + ch.below("pre.owner", 3) as u8, expiry: tip + 5 + ch.below("pre.for", 30) as u32 };
+                    let mut rng = s.rng.clone();
+                    if apply_op(&mut s.conn, &mut rng, &env, &op).is_ok() {
+                        ctx.probe("prelude_locks_across_pools");
+                    }
+                }
+            }
+            if ch.chance("pre.migration", 1, 2) && !s.accounts.is_empty() {
+                let i = ch.idx("pre.mig.acct", s.accounts.len());
+                let maxs = s.scanned.iter().next_back().copied().unwrap_or(s.cfg.base_height + 1);
+                let op = Op::StoreMigration { i, salt: ch.u64("pre.mig.salt"), lo: maxs.saturating_sub(25).max(s.cfg.base_height + 1), hi: maxs.max(s.cfg.base_height + 1), nfs: orchard_nullifiers(&s.conn, s.accounts[i]) };
+                let mut rng = s.rng.clone();
+                if apply_op(&mut s.conn, &mut rng, &env, &op).is_ok() {
+                    ctx.probe("prelude_migration_stored");
                 }
             }
         }
@@ -1130,7 +1402,7 @@ impl Scenario for Atomic {
         vec!["busy_seen", "hot_journal_or_wal_recovered", "fault_absorbed_or_after_commit", "multi_commit_seen"]
     }
     fn fault_kinds(&self) -> Vec<&'static str> {
-        vec!["sql_interrupt@step", "sql_stmt_abort@write_n", "sql_commit_refused", "crash_image@step", "second_conn_snapshot@step", "writer_commit_inside_reader_txn"]
+        vec!["sql_interrupt@step", "sql_stmt_abort@write_n", "sql_commit_refused", "crash_image@step", "second_conn_snapshot@step", "writer_commit_inside_reader_txn", "writer_commit_inside_library_read"]
     }
     fn time_note(&self) -> &'static str {
         "simulated time = SQLite VM steps and row writes of the reference runs (fault positions are drawn inside them)"
